@@ -184,6 +184,7 @@ func init() {
 			}
 			wb := &wbuild{g: genCfg{MaxTargets: mt, Features: map[string]bool{}}, mode: params["mode"], focus: params["focus"], load: params["load"]}
 			wb.long = params["long"] == "1"
+			wb.alwaysDamage = params["damage"] == "1"
 			if f := params["force"]; f != "" {
 				wb.force = strings.Split(f, "+")
 			}
@@ -627,6 +628,18 @@ func (w *wbuild) Drive(s *simrt.Sched, out *RunResult) {
 				}
 			}
 			cs.History = append(cs.History, HistOp{Op: "taint", Req: &req, Exit: &res.ExitCode})
+			if w.g.Features["extfail"] && mB == nil && chance(c, 1, 3, "forced-rerun-will-fail-late") {
+				// the forced re-run is going to fail AFTER its command exited 0 (missing output /
+				// failing check): the taint must survive that build
+				nu := w.U.Clone()
+				kind := pick(c, "late-fail-kind", "omit", "break")
+				nu.Ext["fail_"+l] = kind
+				ed := Edit{Op: "ext-fail", Target: l, Detail: kind + " (right after the taint)"}
+				w.mu.Lock()
+				w.U = nu
+				w.mu.Unlock()
+				cs.History = append(cs.History, HistOp{Op: "edit", Edit: &ed})
+			}
 			if w.fs != nil && w.fs.fired > 0 {
 				// a fault hit the taint command: the taint may or may not have been recorded
 				cm.taintUnc[l] = true
